@@ -31,6 +31,20 @@ func runC06(p *load.Program, r *oblig.Report) {
 	c06Transport(p, r)
 	// the read lock may only be released when the stream is at a frame boundary (or the connection is closed)
 	newC11(p, r).batchCloseDrains("C06.R2 read lock released only at a frame boundary")
+	// a Conn whose exchange was abandoned mid-response (any error that is not a broker error code) is closed, so the
+	// rest of that response can never be taken for the answer to a later request (shared with C11)
+	sub := oblig.NewReport("C06", r.Tier)
+	newC11(p, sub).ruleR2()
+	for _, o := range sub.Obs {
+		o2 := *o
+		o2.Rule = "C06.R7 an abandoned exchange closes the connection (" + strings.SplitN(o.Rule, " ", 2)[0] + ")"
+		r.Add(&o2)
+	}
+	for k, v := range sub.MinCount {
+		if v[0] < v[1] {
+			r.RequireCount("C06.R7 "+k, v[0], v[1])
+		}
+	}
 }
 
 func isMutexOp(ins ssa.Instruction, lockField string, unlock bool) bool {
